@@ -8,7 +8,7 @@ use ddnnife::Ddnnf;
 use std::fmt::Write as _;
 use std::io::Write;
 
-pub const KINDS: &[&str] = &["c02", "c03", "c04", "c05", "c16ops"];
+pub const KINDS: &[&str] = &["c02", "c03", "c04", "c05", "c16ops", "corpus"];
 
 #[derive(Clone, Debug)]
 pub enum Op {
@@ -19,6 +19,8 @@ pub enum Op {
     Cand(Vec<i32>, i32),
     Table,
     Marked(Vec<i32>),
+    /// metamorphic law count(A) = count(A,x) + count(A,-x) (no truth table needed)
+    Law(Vec<i32>, i32),
 }
 
 pub fn all_partial(n: u32) -> Vec<Vec<i32>> {
@@ -135,6 +137,17 @@ pub fn run_op(d: &mut Ddnnf, op: &Op, s: &mut String) {
                 Err(e) => writeln!(s, "panic {}", e).unwrap(),
             }
         }
+        Op::Law(a, x) => {
+            writeln!(s, "op law {} | {}", join(a), x).unwrap();
+            let mut ax = a.clone();
+            ax.push(*x);
+            let mut anx = a.clone();
+            anx.push(-*x);
+            match guarded(|| (d.execute_query(a), d.execute_query(&ax), d.execute_query(&anx), d.sat(a))) {
+                Ok((c0, c1, c2, sat)) => writeln!(s, "r {} {} {} {}", c0, c1, c2, sat as u8).unwrap(),
+                Err(e) => writeln!(s, "panic {}", e).unwrap(),
+            }
+        }
         Op::Marked(a) => {
             writeln!(s, "op marked {}", join(a)).unwrap();
             match guarded(|| d.get_marked_nodes_clone(a)) {
@@ -236,7 +249,77 @@ fn ops_for(kind: &str, inp: &Input, rng: &mut Rng, quick: bool) -> Vec<Op> {
     ops
 }
 
+/// repository corpus (no truth table): model = implementation on every request + metamorphic laws
+fn run_corpus(ctx: &Ctx, out: &mut dyn Write) {
+    let mut rng = Rng::new(ctx.seed ^ 0x5eed_c0);
+    let quick = ctx.tier != "thorough";
+    let base = "/repo/ddnnife/tests/data";
+    let mut files: Vec<(String, Option<u32>)> = vec![
+        (format!("{}/small_ex_c2d.nnf", base), None),
+        (format!("{}/small_ex_d4.nnf", base), Some(4)),
+        (format!("{}/sandwich.nnf", base), None),
+        (format!("{}/VP9_d4.nnf", base), Some(42)),
+        ("/repo/example_input/X264_c2d.nnf".to_string(), None),
+    ];
+    if !quick {
+        files.push(("/repo/example_input/axTLS_d4_684.nnf".to_string(), Some(684)));
+        files.push((format!("{}/auto1_d4.nnf", base), Some(2513)));
+        files.push((format!("{}/auto1_c2d.nnf", base), None));
+        files.push(("/repo/example_input/busybox-1.18.0_c2d.nnf".to_string(), None));
+        files.push(("/repo/example_input/aim711_d4_1277.nnf".to_string(), Some(1277)));
+    }
+    for (k, (path, n)) in files.iter().enumerate() {
+        let text = match std::fs::read_to_string(path) {
+            Ok(t) => t,
+            Err(_) => continue,
+        };
+        let lines: Vec<String> = text.lines().map(|l| l.to_string()).collect();
+        let mut s = String::new();
+        writeln!(s, "case corpus-{} C02", k).unwrap();
+        writeln!(s, "info corpus file {}", path).unwrap();
+        match load(&lines, *n) {
+            Err(e) => {
+                writeln!(s, "n 0").unwrap();
+                writeln!(s, "impl panic {}", e).unwrap()
+            }
+            Ok(mut d) => {
+                let nv = d.number_of_variables;
+                writeln!(s, "n {}", nv).unwrap();
+                s.push_str(&dump_circuit(&d));
+                let mut core: Vec<i32> = d.core.iter().copied().collect();
+                core.sort();
+                writeln!(s, "impl core {}", join(&core)).unwrap();
+                let big = d.nodes.len() > 3000;
+                let reps = if big { 6 } else { 40 };
+                for _ in 0..reps {
+                    let len = *rng.pick(&[0usize, 1, 2, 3, 5, 19, 20, 21, 30]);
+                    let a = random_list(&mut rng, nv, len, true);
+                    let x = 1 + rng.below(nv as u64) as i32;
+                    run_op(&mut d, &Op::Law(a.clone(), x), &mut s);
+                    // permutation / duplication / padding of A past 20 literals
+                    let mut p = a.clone();
+                    rng.shuffle(&mut p);
+                    while p.len() < 22 && !a.is_empty() {
+                        let l = *rng.pick(&a);
+                        p.push(l);
+                    }
+                    run_op(&mut d, &Op::Count(p), &mut s);
+                    run_op(&mut d, &Op::Count(a), &mut s);
+                }
+                if !big {
+                    run_op(&mut d, &Op::Table, &mut s);
+                }
+            }
+        }
+        writeln!(s, "end").unwrap();
+        out.write_all(s.as_bytes()).unwrap();
+    }
+}
+
 pub fn run(kind: &str, ctx: &Ctx, out: &mut dyn Write) {
+    if kind == "corpus" {
+        return run_corpus(ctx, out);
+    }
     let mut rng = Rng::new(ctx.seed ^ 0x5eed_0002);
     let quick = ctx.tier != "thorough";
     let srcs = sources(ctx, &mut rng);
